@@ -28,7 +28,8 @@ def isclose (a b : Float) : Bool := Float.abs (a - b) <= 1e-8 + 1e-5 * Float.abs
 
 def fn : Fn Float :=
   { sqrt := Float.sqrt, asin := Float.asin, abs := Float.abs, close := isclose,
-    tol := 1e-8, eps := 1e-12 }
+    tol := 1e-8, eps := 1e-12,
+    normalize := normalizeBy Float.sqrt, samePt := samePtBy isclose }
 
 def variantOf : Nat → Variant | 0 => .asIs | _ => .repaired
 
@@ -56,8 +57,9 @@ def handle (cmd : String) (args : List Int) : Option String :=
         let a ← float; let b ← float; let c ← float; let d ← float
         pure (v, k, cs, os, (a, b, c, d))) args
       let edges := edgesOf cs
-      let hasN := poleInside fn true edges
-      let hasS := poleInside fn false edges
+      let fl := poleFlags fn (variantOf v) edges
+      let hasN := fl.1
+      let hasS := fl.2
       let mb := faceBounds consts fn (variantOf v) edges
       let (mla, mlb) := pairOr mb.lat
       let (mlo, mhi) := pairOr mb.lon
